@@ -407,7 +407,7 @@ class C04(adjust.Remember, Prop):
         order = self._order(case, obs)
         lit = fac = False
         for a, b in itertools.combinations(order, 2):
-            if a[0] == b[0] and (a[1], a[2]) != (b[1], b[2]):
+            if eq_class(case, a[0]) == eq_class(case, b[0]) and (a[1], a[2]) != (b[1], b[2]):
                 ba, bb = bind(case, a), bind(case, b)
                 if ba is not None and ba == bb:
                     lit = True
